@@ -17,6 +17,9 @@
 #include <sys/socket.h>
 #include <sys/stat.h>
 #include <sys/timerfd.h>
+#include <sys/select.h>
+#include <signal.h>
+#include <time.h>
 #include <unistd.h>
 
 struct shim_fd shim_fds[SHIM_MAX_FD];
@@ -231,12 +234,24 @@ ssize_t shim_real_send(int fd, const void *b, size_t l, int fl) { return __real_
 ssize_t shim_real_recv(int fd, void *b, size_t l, int fl) { return __real_recv(fd, b, l, fl); }
 int shim_real_close(int fd) { return __real_close(fd); }
 
+/* C05: inside a library call on a non-blocking socket, I/O on a descriptor
+   without O_NONBLOCK may put the thread to sleep */
+static void nb_fd_check(int fd, int flags)
+{
+    if (!nb_watch || !in_lib)
+	return;
+    int fl = fcntl(fd, F_GETFL);
+    if (fl >= 0 && !(fl & O_NONBLOCK) && !(flags & MSG_DONTWAIT))
+	wait_seen++;
+}
+
 /* ---- data path ---------------------------------------------------------- */
 
 ssize_t __wrap_send(int fd, const void *buf, size_t len, int flags)
 {
     struct shim_fd *f = get(fd);
     if (f == NULL || !f->tracked || !in_lib) {
+	nb_fd_check(fd, flags);
 	ssize_t r = __real_send(fd, buf, len, flags);
 	ev("send", fd, len, r, r < 0 ? errno : 0);
 	return r;
@@ -282,6 +297,7 @@ ssize_t __wrap_recv(int fd, void *buf, size_t len, int flags)
 {
     struct shim_fd *f = get(fd);
     if (f == NULL || !f->tracked || !in_lib) {
+	nb_fd_check(fd, flags);
 	ssize_t r = __real_recv(fd, buf, len, flags);
 	ev("recv", fd, len, r, r < 0 ? errno : 0);
 	return r;
@@ -349,6 +365,7 @@ int __wrap_accept4(int sfd, struct sockaddr *a, socklen_t *al, int flags)
 	ev("accept4", sfd, 0, -1, errno);
 	return -1;
     }
+    nb_fd_check(sfd, 0);	/* accept on a blocking listening socket waits for a connection */
     int fd = __real_accept4(sfd, a, al, flags);
     int e = errno;
     if (fd >= 0) {
@@ -511,6 +528,54 @@ int __wrap_poll(struct pollfd *fds, nfds_t n, int timeout)
     ev("poll", n > 0 ? fds[0].fd : -1, timeout, r, r < 0 ? e : 0);
     errno = e;
     return r;
+}
+
+int __real_epoll_wait(int, struct epoll_event *, int, int);
+int __wrap_epoll_wait(int epfd, struct epoll_event *evs, int max, int timeout)
+{
+    if (nb_watch && in_lib && timeout != 0)
+	wait_seen++;
+    return __real_epoll_wait(epfd, evs, max, timeout);
+}
+
+int __real_ppoll(struct pollfd *, nfds_t, const struct timespec *, const sigset_t *);
+int __wrap_ppoll(struct pollfd *fds, nfds_t n, const struct timespec *ts, const sigset_t *ss)
+{
+    if (nb_watch && in_lib && (ts == NULL || ts->tv_sec != 0 || ts->tv_nsec != 0))
+	wait_seen++;
+    return __real_ppoll(fds, n, ts, ss);
+}
+
+int __real_select(int, fd_set *, fd_set *, fd_set *, struct timeval *);
+int __wrap_select(int n, fd_set *r, fd_set *w, fd_set *x, struct timeval *tv)
+{
+    if (nb_watch && in_lib && (tv == NULL || tv->tv_sec != 0 || tv->tv_usec != 0))
+	wait_seen++;
+    return __real_select(n, r, w, x, tv);
+}
+
+int __real_nanosleep(const struct timespec *, struct timespec *);
+int __wrap_nanosleep(const struct timespec *req, struct timespec *rem)
+{
+    if (nb_watch && in_lib && req && (req->tv_sec != 0 || req->tv_nsec != 0))
+	wait_seen++;
+    return __real_nanosleep(req, rem);
+}
+
+int __real_usleep(useconds_t);
+int __wrap_usleep(useconds_t us)
+{
+    if (nb_watch && in_lib && us != 0)
+	wait_seen++;
+    return __real_usleep(us);
+}
+
+unsigned __real_sleep(unsigned);
+unsigned __wrap_sleep(unsigned s)
+{
+    if (nb_watch && in_lib && s != 0)
+	wait_seen++;
+    return __real_sleep(s);
 }
 
 FILE *__wrap_fopen(const char *path, const char *mode)
